@@ -84,12 +84,15 @@ EventFails(ev0, sem) ==
   ELSE IF ~TreeShape(ev) THEN <<"TreeShape">>
   ELSE Names(<< <<"TreeScope", TreeScope(ev)>>, <<"TreeMasked", TreeMasked(ev)>>, <<"TreeApplied", TreeApplied(ev)>> >>)
 
-EventVerdict(ev) ==
+\* the event is judged with the masks that never match removed (Mask.tla, "number and index of masks")
+EventVerdict(ev1) ==
+  IF ~OthersSilent(ev1) THEN PrintT(ToJson([id |-> ev1.id, assumption |-> TRUE]))
+  ELSE LET ev == ProjectMasks(ev1) IN
   IF ~EventAssumptions(ev) THEN PrintT(ToJson([id |-> ev.id, assumption |-> TRUE]))
-  ELSE LET f == EventFails(ev, "decl") IN
+  ELSE LET f == EventFails(ev, "decl") \o (IF ev1.res = "ok" /\ ~SilentUnmarked(ev1) THEN <<"SilentUnmarked">> ELSE <<>>) IN
        f # <<>> =>
          \* is what the code did exactly what the named deviation D16 predicts?
-         LET d16 == ev.res = "ok" /\ EventFails(ev, "coded") = <<>> IN
+         LET d16 == ev.res = "ok" /\ EventFails(ev, "coded") = <<>> /\ SilentUnmarked(ev1) IN
          PrintT(ToJson([id |-> ev.id, fail |-> f,
                         situation |-> (IF d16 THEN "list_marks_not_inherited" ELSE "event"),
                         as_modelled |-> d16, da |-> FALSE]))
